@@ -857,5 +857,119 @@ fn main() {
     run.ev.set("exhaustive", json!(true));
     run.ev.set("samples", json!([{"structure": "TDigest K2(delta=10) backlog=2", "pre_history": ["insert(2.5)", "insert_weighted(0, 3)", "insert(-3)"], "then": "clear()", "continuation": "every sequence of 3 ops, and 3 deterministic sequences of 60-200 ops, in lockstep with a fresh digest"}]));
     run.ev.set("rule", json!("per structure/configuration: every pre-history up to depth 3 (RNG: all-0 and all-max picks) + 3 deterministic histories of 1000 ops; clear(); every continuation up to depth 3/4 with every RNG outcome replayed identically on a fresh instance + 3 deterministic continuations; clone/is_empty checks in every pre-history node"));
+    // a cleared structure reports the parameters it was constructed with, like a fresh one (every structure of the crate)
+    {
+        use pdatastructs::filters::bloomfilter::BloomFilter;
+        use pdatastructs::filters::cuckoofilter::CuckooFilter;
+        use pdatastructs::filters::quotientfilter::QuotientFilter;
+        use pdatastructs::hyperloglog::HyperLogLog;
+        use pdatastructs::tdigest::{TDigest, K0, K1, K2, K3};
+        let mut cases = 0u64;
+        let mut bad: Vec<String> = vec![];
+        let mut chk = |what: String, got: Vec<f64>, want: Vec<f64>| {
+            cases += 1;
+            if got != want && bad.len() < 4 {
+                bad.push(format!("{}: getters report {:?}, constructed with {:?}", what, got, want));
+            }
+        };
+        for bs in [2usize, 3, 4, 8] {
+            for nb in [2usize, 4, 64] {
+                for l in [2usize, 7, 33, 64] {
+                    let r = mccore::panics::catch(|| {
+                        let mut f: CuckooFilter<u64, ChoiceRng> = CuckooFilter::with_params(ChoiceRng, bs, nb, l);
+                        let a = vec![f.bucketsize() as f64, f.n_buckets() as f64, f.l_fingerprint() as f64];
+                        f.clear();
+                        (a, vec![f.bucketsize() as f64, f.n_buckets() as f64, f.l_fingerprint() as f64])
+                    });
+                    let want = vec![bs as f64, nb as f64, l as f64];
+                    match r {
+                        Ok((a, b)) => {
+                            chk(format!("CuckooFilter::with_params({}, {}, {})", bs, nb, l), a, want.clone());
+                            chk(format!("CuckooFilter::with_params({}, {}, {}) after clear()", bs, nb, l), b, want);
+                        }
+                        Err(p) => chk(format!("CuckooFilter::with_params({}, {}, {}) panicked: {}", bs, nb, l, p), vec![], want),
+                    }
+                }
+            }
+        }
+        for q in [1usize, 3, 10] {
+            for r in [1usize, 5, 54] {
+                let mut f: QuotientFilter<u64> = QuotientFilter::with_params(q, r);
+                chk(format!("QuotientFilter::with_params({}, {})", q, r), vec![f.bits_quotient() as f64, f.bits_remainder() as f64], vec![q as f64, r as f64]);
+                f.clear();
+                chk(format!("QuotientFilter::with_params({}, {}) after clear()", q, r), vec![f.bits_quotient() as f64, f.bits_remainder() as f64], vec![q as f64, r as f64]);
+            }
+        }
+        for m in [1usize, 63, 64, 65, 1000] {
+            for k in [1usize, 2, 7] {
+                let mut f: BloomFilter<u64> = BloomFilter::with_params(m, k);
+                chk(format!("BloomFilter::with_params({}, {})", m, k), vec![f.m() as f64, f.k() as f64], vec![m as f64, k as f64]);
+                f.clear();
+                chk(format!("BloomFilter::with_params({}, {}) after clear()", m, k), vec![f.m() as f64, f.k() as f64], vec![m as f64, k as f64]);
+            }
+        }
+        for w in [1usize, 3, 272] {
+            for d in [1usize, 2, 9] {
+                let mut f: CountMinSketch<u64> = CountMinSketch::with_params(w, d);
+                chk(format!("CountMinSketch::with_params({}, {})", w, d), vec![f.w() as f64, f.d() as f64], vec![w as f64, d as f64]);
+                f.clear();
+                chk(format!("CountMinSketch::with_params({}, {}) after clear()", w, d), vec![f.w() as f64, f.d() as f64], vec![w as f64, d as f64]);
+                for k in [1usize, 5] {
+                    let mut h: CMSHeap<u64> = CMSHeap::new(k, CountMinSketch::with_params(w, d));
+                    chk(format!("CMSHeap::new({}, {}x{})", k, w, d), vec![h.k() as f64], vec![k as f64]);
+                    h.clear();
+                    chk(format!("CMSHeap::new({}, {}x{}) after clear()", k, w, d), vec![h.k() as f64], vec![k as f64]);
+                }
+            }
+        }
+        for b in 4usize..=18 {
+            let mut f: HyperLogLog<u64> = HyperLogLog::new(b);
+            chk(format!("HyperLogLog::new({})", b), vec![f.b() as f64, f.m() as f64, f.registers().len() as f64], vec![b as f64, (1u64 << b) as f64, (1u64 << b) as f64]);
+            f.clear();
+            chk(format!("HyperLogLog::new({}) after clear()", b), vec![f.b() as f64, f.m() as f64, f.registers().len() as f64], vec![b as f64, (1u64 << b) as f64, (1u64 << b) as f64]);
+        }
+        for k in [1usize, 2, 100] {
+            let mut f: ReservoirSampling<u64, ChoiceRng> = ReservoirSampling::new(k, ChoiceRng);
+            chk(format!("ReservoirSampling::new({})", k), vec![f.k() as f64, f.i() as f64], vec![k as f64, 0.0]);
+            f.clear();
+            chk(format!("ReservoirSampling::new({}) after clear()", k), vec![f.k() as f64, f.i() as f64], vec![k as f64, 0.0]);
+        }
+        for w in (1usize..=128).chain([196, 197, 1000, 4099]) {
+            let mut f: LossyCounter<u64> = LossyCounter::with_width(w);
+            chk(format!("LossyCounter::with_width({})", w), vec![f.width() as f64, f.epsilon(), f.n() as f64], vec![w as f64, 1.0 / w as f64, 0.0]);
+            f.add(1);
+            f.clear();
+            chk(format!("LossyCounter::with_width({}) after add, clear()", w), vec![f.width() as f64, f.epsilon(), f.n() as f64], vec![w as f64, 1.0 / w as f64, 0.0]);
+        }
+        for e in [0.9, 0.5, 0.3, 0.01] {
+            let mut f: LossyCounter<u64> = LossyCounter::with_epsilon(e);
+            let w = (1.0f64 / e).ceil();
+            chk(format!("LossyCounter::with_epsilon({})", e), vec![f.width() as f64, f.epsilon()], vec![w, e]);
+            f.add(1);
+            f.clear();
+            chk(format!("LossyCounter::with_epsilon({}) after add, clear()", e), vec![f.width() as f64, f.epsilon()], vec![w, e]);
+        }
+        for delta in [1.1, 2.0, 100.0, 1000.0] {
+            for backlog in [0usize, 1, 100] {
+                macro_rules! td {
+                    ($k:ident, $name:expr) => {{
+                        let mut f = TDigest::new($k::new(delta), backlog);
+                        chk(format!("TDigest::new({}({}), {})", $name, delta, backlog), vec![f.delta(), f.max_backlog_size() as f64], vec![delta, backlog as f64]);
+                        f.insert(1.0);
+                        f.clear();
+                        chk(format!("TDigest::new({}({}), {}) after insert, clear()", $name, delta, backlog), vec![f.delta(), f.max_backlog_size() as f64], vec![delta, backlog as f64]);
+                    }};
+                }
+                td!(K0, "K0");
+                td!(K1, "K1");
+                td!(K2, "K2");
+                td!(K3, "K3");
+            }
+        }
+        for m in bad {
+            run.violation(Viol { property: "C19".into(), signature: "getters of a fresh / cleared structure do not report the constructor parameters".into(), message: m.clone(), replay: json!({"what": m}) });
+        }
+        run.ev.set("getter_cases", json!(cases));
+    }
     run.finish();
 }
